@@ -96,6 +96,8 @@ func (pass *InlineObjectsWithTypes) processRef(visitor *Visitor, schema *ast.Sch
 		// the object is defined in terms of itself (`A: [...A]`): it can't be
 		// inlined within itself and won't exist anymore after this pass.
 		recursiveType := ast.Any()
+		recursiveType.Nullable = def.Nullable
+		recursiveType.Default = def.Default
 		recursiveType.AddToPassesTrail(fmt.Sprintf("InlineObjectsWithTypes[recursive=%s]", ref))
 
 		return recursiveType, nil
